@@ -123,6 +123,16 @@ func heldValue(rv reflect.Value) reflect.Value {
 	return held
 }
 
+// heldOperand is heldValue for the arguments of a call and for values bound to a name. A struct or
+// an array is handed on as it is: a function that is given a struct can change its fields, and a
+// name bound to a struct stays bound to that struct.
+func heldOperand(rv reflect.Value) reflect.Value {
+	if rv.IsValid() && (rv.Kind() == reflect.Struct || rv.Kind() == reflect.Array) {
+		return rv
+	}
+	return heldValue(rv)
+}
+
 // holdArgs applies heldValue to the arguments of a call that runs later (defer, go).
 func holdArgs(args []reflect.Value, isRunVMFunction bool) {
 	for i, arg := range args {
